@@ -149,6 +149,10 @@ def render(prog, prints=True):
     selfnames = {}
     if mut and mut["kind"] == "shadow-binder":
         d = decls[mut["d"] - 1]
+        if mut.get("skip"):
+            pre = list(d["pre"])
+            pre[mut["skip"] - 1] = dict(pre[mut["skip"] - 1], r="skip")
+            d["pre"] = pre
         old = d["pre"][mut["k"] - 1]
         new = mut["rec"]
         frm, to = (old["b"], new["b"]) if old["r"] in ("+L", "&R") else (old["a"], new["a"])
@@ -253,6 +257,10 @@ def generate(tier, seed, work):
             stats["plans"].append({"plan": list(p), "programs": len(progs), "states": st, "ok": "Error" not in r["out"][-2000:]})
             if r["violated"]:
                 stats.setdefault("errors", []).append("Gen invariant %s violated" % r["violated"])
+            if "Parsing or semantic analysis failed" in r["out"] or (not progs and not r["timeout"]):
+                import re as _re
+                m = _re.search(r"(Semantic errors:.*|Error: .*)", r["out"], _re.S)
+                stats.setdefault("errors", []).append("Gen.tla plan %s produced nothing: %s" % (list(p), (m.group(1) if m else r["out"][-300:])[:400]))
             for k, g in enumerate(progs):
                 try:
                     text = render(g)
